@@ -169,6 +169,7 @@ func c20Model(body *hclsyntax.Body, text string, pos int, fns map[string]schema.
 	// innermost known call whose parentheses (or, if parameterless, whose extent) contain pos
 	var best *hclsyntax.FunctionCallExpr
 	boundary := false
+	insideUnclosed := false
 	for _, fc := range calls {
 		f, known := fns[fc.Name]
 		if !known {
@@ -176,7 +177,12 @@ func c20Model(body *hclsyntax.Body, text string, pos int, fns map[string]schema.
 		}
 		open, cls := fc.OpenParenRange, fc.CloseParenRange
 		if cls.End.Byte <= cls.Start.Byte {
-			return c20Expect{} // unclosed call: safety only
+			// an unclosed call: no claim about positions that are only inside it; a complete call nested in it
+			// is still a call the cursor can be inside of
+			if pos >= open.Start.Byte {
+				insideUnclosed = true
+			}
+			continue
 		}
 		inside := pos >= open.End.Byte && pos <= cls.Start.Byte
 		if len(f.Params) == 0 && f.VarParam == nil {
@@ -202,7 +208,7 @@ func c20Model(body *hclsyntax.Body, text string, pos int, fns map[string]schema.
 		}
 	}
 	if best == nil {
-		return c20Expect{must: !boundary, none: true}
+		return c20Expect{must: !boundary && !insideUnclosed, none: true}
 	}
 	// a boundary position of a call nested inside `best` is still ambiguous
 	f := fns[best.Name]
@@ -248,6 +254,12 @@ func c20Exact(c *report.Collector, tier string) {
 		depth = 3
 	}
 	calls := c20Calls(depth)
+	// half-typed outer calls around complete inner ones (the only files with parse errors that are compared)
+	halfTyped := map[string]bool{}
+	for _, h := range []string{"f2(f1(1), ", "f2(f1(1), \n", "f2(\"s\", [f1(1), )", "f3(f2(1, 2), v1(1", "f2(f1(1)", "f1(f2(1, 2", "v2(1, f3(1, 2, 3), "} {
+		halfTyped[h] = true
+		calls = append(calls, h)
+	}
 	fns := c20Functions()
 	ent := gen.Entry{ID: "F:c20", Mk: func() *schema.BodySchema {
 		return &schema.BodySchema{
@@ -264,7 +276,7 @@ func c20Exact(c *report.Collector, tier string) {
 			if !ok {
 				continue
 			}
-			if _, d := hclsyntax.ParseConfig([]byte(text), "main.tf", hcl.InitialPos); d.HasErrors() {
+			if _, d := hclsyntax.ParseConfig([]byte(text), "main.tf", hcl.InitialPos); d.HasErrors() && !halfTyped[calls[i]] {
 				continue
 			}
 			for _, p := range run.AllPositions([]byte(text), false) {
